@@ -663,12 +663,15 @@ package lua
 // In particular the open upvalues of enclosing, still live activations are NOT closed by an error that is caught below them.
 // ---------------------------------------------------------------------------
 //@ trusted (*LState).where [C03 C05 C17]
-//@ assume where(level, skipg) only reads the call stack and formats "<source>:<line>:" (string assembly not verified)
+//@ assume where(level, skipg) only reads the call stack and formats "<source>:<line>:" (its frame walk and string assembly are not verified)
+//@ logged
 //@ noraise
 //@ modifies nothing
 
-//@ func (*LState).raiseError [C03 C05]
+// the position prefix of an error raised at level n is where(n - 1, true): level 1 = the function that raised it
+//@ func (*LState).raiseError [C03 C05 C17]
 //@ requires ls != nil && ls.reg != nil && Inv_reg(ls.reg) && Inv_api(ls) && uvsValid(ls)
+//@ assert@"if ls.reg.IsFull() {" level > 0 ==> ncalls() == old(ncalls()) + 1 && callfn(old(ncalls())) == fnid("(*LState).where") && callargInt(old(ncalls()), 1) == level - 1 && callargBool(old(ncalls()), 2)
 //@ cut@"ls.Panic(ls)" the panic function (a field of the state) takes over; what PCall's recovery does with it is PCall$1's contract
 //@ modifies ls.reg.array, ls.reg.top, ls.reg.array[*]
 
